@@ -20,6 +20,38 @@ use uuid::Uuid;
 
 // ------------------------------------------------------------------------------------------------ pure part
 
+thread_local! {
+    static LAST_PANIC: std::cell::RefCell<String> = const { std::cell::RefCell::new(String::new()) };
+}
+
+/// Panic hook: remember the message (nothing is printed).
+fn install_panic_hook() {
+    std::panic::set_hook(Box::new(|info| {
+        let msg = if let Some(s) = info.payload().downcast_ref::<&str>() {
+            s.to_string()
+        } else if let Some(s) = info.payload().downcast_ref::<String>() {
+            s.clone()
+        } else {
+            String::new()
+        };
+        LAST_PANIC.with(|c| *c.borrow_mut() = msg);
+    }));
+}
+
+/// Canonical name of the last panic: which `unwrap`/`finish` fired.
+fn last_panic_cause() -> &'static str {
+    LAST_PANIC.with(|c| {
+        let m = c.borrow();
+        if m.contains("Err::Incomplete") {
+            "finish-incomplete"
+        } else if m.contains("CharTryFromError") {
+            "char-try-from"
+        } else {
+            "other"
+        }
+    })
+}
+
 fn hs(s: &str) -> String {
     hex(s.as_bytes())
 }
@@ -43,7 +75,7 @@ fn render_env(env: RawEnvelope<'_>) -> String {
 /// Real reader on one frame.
 fn real_peel(frame: &str) -> String {
     match catch_unwind(AssertUnwindSafe(|| peel_envelope_header_str(frame).map(render_env))) {
-        Err(_) => "panic".into(),
+        Err(_) => format!("panic {}", last_panic_cause()),
         Ok(Err(_)) => "err".into(),
         Ok(Ok(s)) => s,
     }
@@ -341,7 +373,7 @@ fn gen_fuzz_case(rng: &mut Rng, t: &mut Trace) {
 }
 
 fn main() {
-    std::panic::set_hook(Box::new(|_| {}));
+    install_panic_hook();
     let engine = std::env::args().nth(5).unwrap_or_else(|| "pure".to_string());
     match parse_args() {
         Mode::Gen { seed, cases, out } => {
